@@ -68,6 +68,7 @@ func minInt(a, b int) int {
 // e4Check runs the case and applies one property's oracle.
 func e4Check(tb rapid.TB, prop string, c e4Case, oracle func(*e4Result) string, nontrivial func(*e4Result) (bool, []string)) {
 	r := e4Run(c)
+	msg := oracle(r)
 	nt, extra := nontrivial(r)
 	vCount(prop, nt, vJSON(c), append(e4Labels(r), extra...), func() interface{} {
 		return map[string]interface{}{"case": c, "fired": r.Fired, "trace_tail": r.trace(12)}
@@ -75,7 +76,7 @@ func e4Check(tb rapid.TB, prop string, c e4Case, oracle func(*e4Result) string, 
 	if !r.Quiesced && !r.Stuck && !r.Disconnected {
 		vInconclusive(prop, "case did not reach quiescence within its budget while still making progress")
 	}
-	if msg := oracle(r); msg != "" {
+	if msg != "" {
 		tr := map[string]interface{}{"trace": r.trace(400)}
 		if r.Stuck {
 			tr["goroutines"] = r.Dump
@@ -218,6 +219,56 @@ func TestVerifC01_ReconnectRace(t *testing.T) {
 		}, func(r *e4Result) (bool, []string) {
 			pending, _ := e4PendingAtFaults(r)
 			return pending >= 1 || len(r.Conns) >= 2, []string{"reconnect-race"}
+		})
+	})
+}
+
+// TestVerifC15_ViaRetry: through the retrying client too, a caller-chosen identifier is used unchanged on
+// every emission of the message (first, deferred behind the retry queue, retransmitted), chosen ids are
+// non-zero, and two different messages never share an identifier while both are unacknowledged.
+func TestVerifC15_ViaRetry(t *testing.T) {
+	vRun(t, "C15", vOpts{CurFile: true, ReplayReps: 10}, func(rt *rapid.T) e4Case {
+		c := e4GenCase(rt, e4OptsC12)
+		for i := range c.Steps {
+			if c.Steps[i].Kind == "pub" && c.Steps[i].QoS > 0 && rapid.IntRange(0, 1).Draw(rt, "fixID") == 0 {
+				c.Steps[i].ID = 40000 + c.Steps[i].Idx
+			}
+		}
+		return c
+	}, func(tb rapid.TB, c e4Case) {
+		fixed := 0
+		e4Check(tb, "C15", c, func(r *e4Result) string {
+			req := map[string]e4Req{}
+			for _, q := range r.Reqs {
+				req[q.Tag] = q
+			}
+			for _, e := range r.Log {
+				if !e4Emitted(e) {
+					continue
+				}
+				switch e.Pkt.Type {
+				case rtPublish:
+					if e.Pkt.QoS == 0 {
+						continue
+					}
+					if e.Pkt.ID == 0 {
+						return fmt.Sprintf("PUBLISH #%d on c%d carries packet identifier 0", e.Seq, e.Conn)
+					}
+					if q, ok := req[vTagOf(*e.Pkt)]; ok && q.Step.ID != 0 {
+						fixed++
+						if e.Pkt.ID != q.Step.ID {
+							return fmt.Sprintf("message idx %d was submitted with packet identifier %d but PUBLISH #%d on c%d carries %d", q.Idx, q.Step.ID, e.Seq, e.Conn, e.Pkt.ID)
+						}
+					}
+				case rtSubscribe, rtUnsubscribe:
+					if e.Pkt.ID == 0 {
+						return fmt.Sprintf("%s #%d on c%d carries packet identifier 0", refTypeNames[e.Pkt.Type], e.Seq, e.Conn)
+					}
+				}
+			}
+			return ""
+		}, func(r *e4Result) (bool, []string) {
+			return fixed > 0 && r.Stats.TotalRetries > 0, []string{"via-retry-client"}
 		})
 	})
 }
